@@ -82,6 +82,10 @@ def run(facts, chk, tier, only=None):
     from . import buildops
     # the parallel build, functionally: sample i owns name i and column i for every recursion depth
     chk.guard('C11.func', 'C11.func:parallel_append', lambda: buildops.check_parallel_append(facts, chk, 'C11.func', tier))
+    # ska align / ska map through main() on sequence-file input, for several --threads values: same output as the specification
+    from . import cli_more
+    chk.guard('C11.cli', 'C11.cli:run0', lambda: cli_more.check_seq_inputs(facts, chk, 'C11.cli', tier, 'align'))
+    chk.guard('C11.cli', 'C11.cli:run1', lambda: cli_more.check_seq_inputs(facts, chk, 'C11.cli', tier, 'map'))
     main = facts.fn('main')
     # ---------------------------------------------------------------- pool
     def pool():
